@@ -67,9 +67,11 @@ IsNearFloat(v, p, fm) ==
       fv == FIntVal(p, fm)
       \* 2 v >= (2^(k+1) - 1) * 2^(emax - k)
       mayinf == Ge(Shl(v, 1), Shl(Ones(k + 1), emax - k))
+      \* from 2^emax on the neighbour below is the largest finite float (the one above is +infinity)
+      low == IF Lt2(r1, emax) THEN r1 ELSE Shl(Ones(k), emax - k)
   IN /\ ~FSign(p, fm) /\ FIsIntegral(p, fm)
      /\ IF fv[1] THEN mayinf
-        ELSE /\ fv[2] = r1 \/ fv[2] = r2
+        ELSE /\ fv[2] = low \/ fv[2] = r2
              /\ Lt2(fv[2], emax)
 
 \* an ascending run of values: each conversion is near, and the floats are non-decreasing
